@@ -31,9 +31,13 @@ class FakeToken:
         return self.value
 
 
-ign.Token = FakeToken
-_LARK_VERSION = ign.version('lark')
-ign.version = lambda name: _LARK_VERSION      # importlib.metadata lookup per tree node -> constant
+REAL = os.environ.get('VH_REAL') == '1'     # second-stage confirmation: real lark.Token, nothing rebound
+if REAL:
+    from lark import Token as FakeToken  # noqa: E402,F811
+else:
+    ign.Token = FakeToken
+    _LARK_VERSION = ign.version('lark')
+    ign.version = lambda name: _LARK_VERSION      # importlib.metadata lookup per tree node -> constant
 
 TOKALPHA = ' ' + NUL + TAB + ';' + CR + NL + '&x'
 TOK_MAX = int(os.environ.get('VH_TOKMAX', '3'))
